@@ -48,6 +48,8 @@ type handler struct {
 	w         *tr.Writer
 	cur       *connInfo // connection of the innermost callback in progress
 	udpPeers  map[string]*peer
+	third     *net.UDPConn // a socket that is nobody's peer: the target of SendTo on connected client sockets
+	thirdExp  [][]byte
 	inTraffic chan struct{}
 	release   chan struct{}
 }
@@ -169,6 +171,23 @@ func (h *handler) OnTraffic(c gnet.Conn) gnet.Action {
 	ci.traffic++
 	h.obs(ci, tr.L("cb", "traffic", tr.I(ci.mcid)))
 	h.checkInbound(ci, "traffic")
+	if h.third != nil && h.cfg.client && h.cfg.proto == "udp" && h.rnd.Chance(30) {
+		// C08 "SendTo sends it to the given address", on a CONNECTED client socket: the datagram goes to the
+		// address given, not to the connected peer; oracle only (not part of the model)
+		data := append([]byte("3RD:"), h.payload(h.rnd.Pick([]int{0, 5, 40}))...)
+		h.rec.mu.Lock()
+		h.rec.suppress = true
+		h.rec.mu.Unlock()
+		_, err := c.SendTo(data, h.third.LocalAddr())
+		h.rec.mu.Lock()
+		h.rec.suppress = false
+		h.rec.mu.Unlock()
+		if err == nil {
+			h.mu.Lock()
+			h.thirdExp = append(h.thirdExp, data)
+			h.mu.Unlock()
+		}
+	}
 	h.script(ci, "traffic")
 	a := h.pickAction(ci, "traffic")
 	h.op(ci, tr.L("hret", actName(a)))
